@@ -46,6 +46,7 @@ type Contract struct {
 	Inline     bool
 	Trusted    bool
 	NoBody     bool // interface method or external: contract only
+	External   bool // contract of a function outside the module (assumed, never verified)
 	File       string
 	Line       int
 	bound      bool
